@@ -250,6 +250,11 @@ def tamper(case: DCase, rng, others=()):
                 mk(v2, "nonempty-encrypted-key-direct")
             else:
                 mk(w(encrypted_key="AQEBAQEBAQE"), "nonempty-encrypted-key-direct")
+        if items is not None:
+            # the recipient list itself: emptied, or its entries replaced by empty objects
+            mk(w(recipients=[]), "empty-recipients")
+            if any(r.get("encrypted_key") for r in items):
+                mk(w(recipients=[{} for _ in items]), "blank-recipients")
         # key-management parameters carried OUTSIDE the protected header (per-recipient / unprotected): they are not
         # covered by the content AAD, but every one of them steers the CEK recovery, so no edit may yield a plaintext
         def wr(hdr=None, ek=None):
